@@ -36,8 +36,10 @@ func (t *instM) close(code uint32) {
 type modelW struct {
 	A, B instM
 	NReg bool
-	X    [nXMem]instM // module X per memory shape (only G and closed(code) are used)
-	XIn  [nXMem]bool  // instantiated
+	// raisedID: the most recent host level raised an error value (the caller must receive that very value)
+	raisedID bool
+	X        [nXMem]instM // module X per memory shape (only G and closed(code) are used)
+	XIn      [nXMem]bool  // instantiated
 }
 
 func (w *modelW) observeX() string {
@@ -216,10 +218,32 @@ func (w *modelW) reenter(depth, mode, tgt uint32, kind int, k uint32) uint32 {
 		}
 		_, class = w.call(t, func() uint32 { return w.direct(t, kind, k) })
 	}
+	style := mode >> 4
+	switch style {
+	case styleExit0:
+		w.raisedID = true
+		panic(mfail{"exit:0"}) // a host function panicking with an exit error it made: the call returns it; nothing is closed
+	case styleExit9:
+		w.raisedID = true
+		panic(mfail{"exit:9"})
+	}
 	if class != "ok" {
-		if mode == depth {
+		if mode&15 == depth {
+			w.raisedID = false
 			return classCode(class)
 		}
+		switch style {
+		case styleUnwrap, styleErrorf, styleJoin:
+			// an ordinary panic with an own error value: the caller gets that value; an exit error inside it
+			// is reachable with errors.As only (it is no longer "the" error)
+			if strings.HasPrefix(class, "exit:") {
+				class = "exit-wrapped:" + strings.TrimPrefix(class, "exit:")
+			}
+		case styleString:
+			w.raisedID = false
+			panic(mfail{"panic:string"})
+		}
+		w.raisedID = true
 		panic(mfail{class})
 	}
 	return 0
@@ -236,9 +260,23 @@ func (w *modelW) step(l letter, k uint32) (string, uint32) {
 		ret, class = w.call(&w.B, func() uint32 { return w.direct(&w.B, l.Kind, k) })
 	case ShViaB:
 		ret, class = w.call(&w.A, func() uint32 { return w.viab(l.Kind, k) })
-	case ShHost1P, ShHost2P, ShHost5P, ShHost1C, ShHost5CI, ShHost5CO, ShHost1PB, ShHost1CB:
+	case ShHost1P, ShHost2P, ShHost5P, ShHost1C, ShHost5CI, ShHost5CO, ShHost1PB, ShHost1CB,
+		ShHost1W1, ShHost1W2, ShHost1W3, ShHost1S, ShHost1E0, ShHost1E9, ShHost5W1, ShHost2W3:
 		d, m, t := hostArgs(l.Shape)
-		ret, class = w.call(&w.A, func() uint32 { return w.viahost(d, m, t, l.Kind, k) })
+		w.raisedID = false
+		failed := false
+		ret, class = w.call(&w.A, func() uint32 {
+			defer func() {
+				if r := recover(); r != nil {
+					failed = true
+					panic(r)
+				}
+			}()
+			return w.viahost(d, m, t, l.Kind, k)
+		})
+		if failed && w.raisedID {
+			class += "+id"
+		}
 	case ShStartSecA, ShStartSecB, ShStartFnA, ShStartFnB:
 		t := &w.A
 		if shapes[l.Shape].target == 'B' {
